@@ -1,6 +1,8 @@
 """Shared exec stub for the sandbox properties C04 / C05: what pedal's own code can observe of a student program
 is (text written to the captured stream, how it terminates); both are dictated by the harness."""
+import io as _real_io
 import sys
+import types
 
 import pedal.sandbox.sandbox as SB
 from pedal.core.report import Report
@@ -44,11 +46,13 @@ TERMINATIONS = [
     ("UserBase", lambda: UserBase("b"), False),
 ]
 
-state = {"text": "", "term": 0, "raised": None}
+state = {"text": "", "term": 0, "raised": None, "close": False}
 
 
 def fake_exec(code, data):
     sys.stdout.write(state["text"])
+    if state["close"]:
+        sys.stdout.close()          # a student program may close (or `with`-manage) the stream it was given
     if "_" not in data:
         data["_"] = 0
     fac = TERMINATIONS[state["term"]][1]
@@ -60,6 +64,25 @@ def fake_exec(code, data):
 
 SB.exec = fake_exec
 untrace_patches()
+
+# CrossHair swaps io.StringIO for its own model, whose getvalue() does not fail on a closed stream. When the stubbed
+# program closes the stream, pedal is given the REAL StringIO class (captured here, at import, before tracing starts)
+# and the printed text is concrete.
+_REAL_STRINGIO = _real_io.StringIO
+_SB_IO = SB.io
+
+
+def _real_stringio(*a, **k):
+    try:
+        from crosshair.tracers import NoTracing
+    except Exception:
+        return _REAL_STRINGIO(*a, **k)
+    with NoTracing():           # constructing it under tracing would be intercepted and replaced by the model again
+        return _REAL_STRINGIO(*a, **k)
+
+
+def use_real_stream(on):
+    SB.io = types.SimpleNamespace(StringIO=_real_stringio) if on else _SB_IO
 
 
 def fresh(code="pass"):
